@@ -951,7 +951,7 @@ func runC16(r *core.Run) {
 	}
 	ws.Done()
 	ws.Merge()
-	r.GateCounter("burst-clients-answered", 500)
+	r.GateCounter("burst-clients-answered", 200) // (a scaled-down thorough run has three bursts of 96-300 clients)
 	for _, k := range []string{"volatile:removed", "volatile:becomes-directory", "volatile:rewritten", "volatile:root-relinked"} {
 		r.GateCounter(k, 100)
 	}
